@@ -21,7 +21,28 @@ fn one_case(r: &mut Rng, id: usize, out: &mut String) {
         maxk: 5,
         term_pool: 0,
     };
-    let t: AffTree<2> = if r.chance(1, 3) { gen_tree(r, n, m, cfg) } else { gen_tree_holes(r, n, m, cfg, 3) };
+    let mut t: AffTree<2> = if r.chance(1, 3) { gen_tree(r, n, m, cfg) } else { gen_tree_holes(r, n, m, cfg, 3) };
+    // one tree in six has predicates with coefficients of very different magnitude (2^-60 beside ordinary ones, or a
+    // whole row scaled by 2^-60): the half-spaces reported for a path are the stored predicates, however small
+    let wide = r.chance(1, 6);
+    if wide {
+        let decs: Vec<usize> = t.tree.decision_indices().collect();
+        for d in decs {
+            if r.chance(1, 2) {
+                let mut p = t.tree.node_value(d).unwrap().aff.clone();
+                if r.chance(1, 2) {
+                    let j = r.below(n);
+                    p.mat[[0, j]] = if r.chance(1, 2) { 2f64.powi(-60) } else { -(2f64.powi(-60)) };
+                } else {
+                    for j in 0..n {
+                        p.mat[[0, j]] *= 2f64.powi(-60);
+                    }
+                    p.bias[0] *= 2f64.powi(-60);
+                }
+                t.update_node(d, p).unwrap();
+            }
+        }
+    }
     let size = t.len();
     // script of Next / Skip commands; repeated skips with small probability
     let len = size + 2 + r.below(size + 1);
@@ -69,7 +90,10 @@ fn one_case(r: &mut Rng, id: usize, out: &mut String) {
     it_s.push(')');
     // find_terminal on lattice and hyperplane points
     let mut ft = String::from("(find");
-    for x in gen_points_for(r, &t, 6) {
+    // (not on the wide-magnitude trees: there the f64 dot product of find_terminal rounds, and routing next to a
+    // hyperplane legitimately differs from exact arithmetic; those trees are decided on the reported half-spaces)
+    let pts = if wide { Vec::new() } else { gen_points_for(r, &t, 6) };
+    for x in pts {
         let res = catch(AssertUnwindSafe(|| {
             t.find_terminal(t.tree.get_root(), &x).map(|(nd, labels)| {
                 let idx = t.tree.node_iter().find(|(_, c)| std::ptr::eq(*c, nd)).map(|(i, _)| i).unwrap();
